@@ -105,6 +105,13 @@ func (t *treeSpec) makeZip() {
 		return d
 	}()...)
 	sort.Strings(all)
+	if t.Name == "300" {
+		// the large archive lists its 60 directories first, then its files (a layout archivers produce): a long run of
+		// consecutive directory entries
+		sort.SliceStable(all, func(i, j int) bool {
+			return all[i][len(all[i])-1] == '/' && all[j][len(all[j])-1] != '/'
+		})
+	}
 	stamp := time.Date(2020, 1, 2, 3, 4, 6, 0, time.UTC)
 	for _, name := range all {
 		h := &zip.FileHeader{Name: name, Method: zip.Deflate, Modified: stamp}
